@@ -32,7 +32,7 @@ ASSUMPTIONS = ["float64 CPU", "sp methods (MNDO/AM1/PM3/PM6_SP); the d-orbital P
                "start densities carry no weight on padding orbitals and the same perturbation in both spin channels (valid inputs only)",
                "a call that raises is a loud, bounded return: counted (calls_raised), not judged here",
                "UHF per-spin commutator/reproduction constants carry the calibrated factor S_UHF = 5 (see module comment)"]
-REQUIRED_MONITORS = ["unrolled_backward_path_calls", "sp2_calls_uneven_sweeps", "sp2_rows_vs_alone_compared", "finite_T_rows_checked",
+REQUIRED_MONITORS = ["pulay_reject_class_rows_nonfirst", "padded_finite_T_rows_checked", "unrolled_backward_path_calls", "sp2_calls_uneven_sweeps", "sp2_rows_vs_alone_compared", "finite_T_rows_checked",
                      "rows_checked_converged", "rows_flagged_notconverged", "get_error_calls", "loop_backedges",
                      "sp2_calls", "ksa_returns"]
 CASE_TIMEOUT = 120.0
@@ -211,6 +211,10 @@ def gen_cases(tier, seed):
     else:
         for T in [3000.0, 4000.0, 5500.0]:
             plan += [(pp, T, True) for pp in ksa_pairs] + [(pp, T, False) for pp in mix_pairs]
+    plan += [(("CH2O", "OH-"), 1500.0, True), (("CH3OH", "CN-"), 300.0, True), (("CH2O", "OH-"), 1500.0, False)]
+    if tier == "thorough":
+        plan += [(pp, T, k_) for pp in [("CH2O", "OH-"), ("CH3OH", "CN-"), ("C2H4", "OH-"), ("HCOOH", "CN-"), ("CH3NH2", "OH-", "H2O")]
+                 for T in (300.0, 800.0, 1500.0) for k_ in (True, False)]
     for names, T, ksa in plan:
         ms = []
         for n in names:
@@ -225,6 +229,37 @@ def gen_cases(tier, seed):
         cases.append({"kind": "backward", "mols": [_mk_mol(g, name, 1.0)], "pad": 0, "method": "AM1",
                       "conv": _pick(g, [[1], [2], [0, 0.3]]), "sp2": None, "eps": 1e-8, "start": "default", "cap": None,
                       "uhf": False, "backward": 1})
+    # Pulay batches that contain, at a batch position >= 1, a system whose DIIS fixed point is NOT the aufbau density of its own
+    # Fock matrix (far-stretched ionic diatomic / decoupled far fragments: the final "F[P] reproduces P" check must reject
+    # it), next to mates that converge in other iterations; the same with the system in front as control
+    def _lih(d):
+        mm = _mk_mol(g, "LiH", d / 1.596)
+        mm["sigma"] = 0.0
+        return mm
+
+    def _wit():
+        return {"name": "LiH+F2+C2H2@30A", "explicit": dict(FAR_FRAGMENT_WITNESS), "gseed": 0, "sigma": 0.0, "scale": 1.0}
+
+    def _mate(n):
+        mm = _mk_mol(g, n, 1.0)
+        mm["sigma"] = 0.03
+        return mm
+
+    rj = [("MNDO", [_mate("HF"), _lih(18.0)]), ("MNDO", [_mate("H2O"), _mate("CH3OH"), _lih(18.0)]),
+          ("PM3", [_mate("CH4"), _lih(18.0), _mate("HCN")]), ("PM3", [_mate("H2O"), _wit()]),
+          ("PM3", [_mate("CH3OH"), _mate("HF"), _wit()]), ("MNDO", [_lih(18.0), _mate("HF")])]
+    if tier == "thorough":
+        mates = ["HF", "H2O", "CH4", "NH3", "HCN", "CH3OH", "C2H4", "CO", "N2", "CH2O"]
+        for i in range(30):
+            meth = ["MNDO", "PM3"][i % 2]
+            row = _wit() if (meth == "PM3" and i % 6 == 1) else _lih(float(_pick(g, [12.0, 18.0, 26.0])))
+            ms = [_mate(_pick(g, mates)) for _ in range(int(g.integers(1, 4)))]
+            ms.insert(int(g.integers(1, len(ms) + 1)), row)
+            rj.append((meth, ms))
+    for meth, ms in rj:
+        cases.append({"kind": "pulay-reject-batch", "mols": ms, "pad": 0, "method": meth, "conv": [2], "sp2": None,
+                      "eps": 1e-8, "start": "default", "cap": None, "uhf": False, "backward": 0,
+                      "special": [i for i, mm in enumerate(ms) if mm["name"] == "LiH" or mm.get("explicit")]})
     # scf_backward=2 (direct back-propagation): scf_loop calls scf_forward0/1/2 with backward=True, i.e. the separate
     # out-of-place `if backward:` update branches of all three solvers, with autograd enabled
     b2 = [([0, a], nm) for a, nm in [(0.0, "H2O"), (0.05, "CH2O"), (0.1, "NH3"), (0.3, "HCN"), (0.7, "CH4")]] \
@@ -365,7 +400,8 @@ def run_case(case):
            "backward_fixed_point_calls": 0, "flag_rows_checked": 0, "iteration_counts_checked": 0,
            "returned_vs_judged_rows": 0, "sp2_calls_uneven_sweeps": 0, "sp2_rows_vs_alone_compared": 0,
            "sp2_rows_same_sweep_sequence": 0, "sp2_rows_other_sweep_sequence": 0, "finite_T_rows_checked": 0,
-           "unrolled_backward_path_calls": 0}
+           "unrolled_backward_path_calls": 0, "pulay_final_check_rejected_rows": 0, "pulay_reject_class_rows_nonfirst": 0,
+           "padded_finite_T_rows_checked": 0}
     viol, margins, cells = [], {}, []
 
     def upd(name, val, tol):
@@ -410,9 +446,22 @@ def run_case(case):
         if frame.f_locals.get("backward") is True:
             unrolled["n"] += 1
 
+    rejected = {"rows": set(), "last": None}
+
+    def _pulay_final_check(frame):
+        # rows of the batch that the solver's final "F[P] reproduces P" confirmation rejected in this iteration
+        # (read from live state: `moved` is a fresh tensor object exactly in the iterations in which the check ran)
+        loc = frame.f_locals
+        mv, nw = loc.get("moved"), loc.get("newly")
+        if torch.is_tensor(mv) and torch.is_tensor(nw) and mv is not rejected["last"]:
+            rejected["last"] = mv
+            idx = torch.nonzero(nw.detach()).reshape(-1)
+            if idx.numel() == mv.numel():
+                rejected["rows"].update(int(i) for i in idx[mv.detach()].tolist())
+
     for fn_ in ("scf_forward0", "scf_forward1", "scf_forward2"):
         if hasattr(sl, fn_):
-            lw.on_frames(getattr(sl, fn_), start=_bw)
+            lw.on_frames(getattr(sl, fn_), start=_bw, backedge=_pulay_final_check if fn_ == "scf_forward2" else None)
     sweeps = scfmon.SP2SweepLog()
     if sp2:
         from seqm.seqm_functions import SP2 as sp2mod
@@ -443,6 +492,7 @@ def run_case(case):
     mon["sp2_calls"] = lw.calls.get("SP2", 0)
     mon["sp2_calls_uneven_sweeps"] = sweeps.uneven_calls
     mon["unrolled_backward_path_calls"] = unrolled["n"]
+    mon["pulay_final_check_rejected_rows"] = len(rejected["rows"])
     mon["ksa_returns"] = ksa_log.get("n", 0)
     mon["backward_fixed_point_calls"] = lw.calls.get("fixed_point_anderson", 0) + lw.calls.get("fixed_point_picard", 0)
     loops_seen = {k: int(v) for k, v in lw.max_seen.items()}
@@ -590,6 +640,8 @@ def run_case(case):
             # in these cells).  A strict consequence of the stopping rules, taken x1.5.
             tol_trace = 1.5 * (2.0e-9 + (K_TRACE_EPS * nbas * eps if conv[0] == 3 else 0.0))
             mon["finite_T_rows_checked"] += 1
+            if 0 in S[b]:
+                mon["padded_finite_T_rows_checked"] += 1
         checks = [("symmetry", r["symmetry"], TOL_SYM), ("padding", r["padding"], 1e-14),
                   ("trace", r["trace"], tol_trace), ("trace_spin", r["trace_spin"], tol_trace),
                   ("charge_sum", r["charge_sum"], tol_trace),
@@ -648,6 +700,22 @@ def run_case(case):
             viol.append({"clause": name, "mech": mech,
                          "detail": dict(detail_common, row=b, value=val, bound=tol, ratio=val / tol, eps_eff=eps_eff, A=A,
                                         residuals=rr, coords=C[b])})
+    if case.get("kind") == "pulay-reject-batch":
+        # was the class really exercised?  a non-first row that the solver's final check rejected at least once (observed in
+        # the live frame) or, independently of any internal name, whose alone-run under the same settings is not a converged
+        # aufbau solution (flagged not converged)
+        obs["final_check_rejected_rows"] = sorted(rejected["rows"])
+        for b in case.get("special", []):
+            hit = b in rejected["rows"]
+            if not hit:
+                Zb, Xb, qb, mb = _geometry(case["mols"][b])
+                try:
+                    alone = run.single_point(Zb, Xb, sett, charges=qb, mult=mb)
+                    hit = bool(np.any(alone["notconverged"]))
+                except Exception:
+                    hit = False
+            if hit and b >= 1:
+                mon["pulay_reject_class_rows_nonfirst"] += 1
     if case.get("kind") == "sp2-uneven":
         # every converged row against the SAME molecule run alone with the same settings: SP2 acts row by row, so the
         # batch can only change a row's SCF path (Pulay) -- both runs end within one admissible step of the same fixed point
